@@ -1,7 +1,6 @@
 // C11 (V): AbstractCulture::index_of extracted verbatim: the Euclidean remainder for EVERY isize index and EVERY
 // table size 1..isize::MAX (symbolic size; the Kani cycle harnesses re-check it per concrete table).
-// (SolarTime::next cannot be taken through Verus: `ts %= 60` on isize is an unsupported construct; its carry
-//  arithmetic is a Kani obligation, c12_k_time_next_carry.)
+// (SolarTime::next is the Verus unit c12_time_next: extraction rule E8 desugars its `ts %= 60`.)
 use vstd::prelude::*;
 verus! {
 //@SPECLIB
